@@ -586,6 +586,48 @@ pub fn run_c06_sources(out: &mut Out, _tier: &str, rng: &mut Rng) {
     }
 }
 
+/// Engine status frames over the whole speed range (dense around the speeds anything downstream compares with) x starter
+/// modes, each followed by a control cycle and now and then an engine command: no reported speed may stop the tick or the
+/// command path of the engine unit.
+pub fn run_c06_engine_speeds(out: &mut Out, tier: &str, rng: &mut Rng) {
+    let cfg = NetCfg {
+        address: 0x27,
+        name: default_name(),
+        drivers: vec![DriverCfg { da: 0x00, sa: Some(0x11), timeout: None, vendor: "volvo".into(), product: "d7e".into() }],
+    };
+    let mut rpms: Vec<u16> = (0..=8031u16).step_by(if tier == "thorough" { 1 } else { 23 }).collect();
+    for c in [0u16, 1, 499, 500, 501, 549, 550, 551, 799, 800, 801, 899, 900, 2099, 2100, 2101, 2199, 2200, 2201, 8030, 8031] {
+        rpms.push(c);
+    }
+    let mut events: Vec<(u16, u8)> = vec![];
+    for r in rpms {
+        for nib in [0x0Fu8, 0x03, 0x01, 0x00] {
+            if nib != 0x0F && r % 7 != 0 && !(490..=560).contains(&r) {
+                continue;
+            }
+            events.push((r, nib));
+        }
+    }
+    for part in events.chunks(400) {
+        let mut rig = Rig::new(&cfg).expect("authority");
+        let mut h = Hist { rig: &mut rig, ins: vec![], outs: vec![] };
+        h.setup();
+        h.cycle();
+        for (i, (r, nib)) in part.iter().enumerate() {
+            let raw = (*r as u32 * 8).min(0xFAFF) as u16;
+            let b = raw.to_le_bytes();
+            h.frame(&raw_of(make_id(3, 61444, 0, 0x00), &[0xF0, 0x7D, 0x80, b[0], b[1], 0xFF, 0xF0 | nib, 0xFF]));
+            h.cycle();
+            if i % 16 == 7 {
+                h.engine(&Engine { driver_demand: 0, actual_engine: 0, rpm: *rng.pick(&[0u16, 900, 1500, 2300]), state: EngineState::Request });
+            }
+        }
+        let (ins, outs) = (h.ins.join(" "), h.outs.join(" "));
+        out.case(&format!("auth {} {}", cfg.tok(), ins), &outs, true);
+        out.count("engine status frames over the speed range, each followed by a cycle");
+    }
+}
+
 /// Requests to the own address at a coarser grain but over ALL data pages and third-byte values: every PDU2 number and every
 /// PDU1 format on pages 0..3; the served groups (and neighbours) with every value of the third request byte (the bits above
 /// the 18-bit number included); the same cut to 2, 1 and 0 data bytes (0xFF padding takes the place of the missing bytes).
